@@ -162,3 +162,24 @@ V('C06-sjoin-unfiltered-bounds', 'C06', SJ, "    partition_bounds = left_ddf.geo
 V('C06-persist-like-cache-on-filter', 'C06', D, "    def _compute_packing_npartitions(self, npartitions):", "    def query(self, expr, **kwargs):\n        result = super().query(expr, **kwargs)\n        result._partition_bounds = self._partition_bounds\n        return result\n\n    def _compute_packing_npartitions(self, npartitions):", rule='C06.d')
 V('C06-silent-rename', 'C06', D, "        for partition_ind, delayed_df in zip(all_partition_inds, ddf.to_delayed(), strict=True):\n            if partition_ind in overlaps_inds:\n                delayed_dfs.append(\n                    cx_fn(delayed_df)\n                )\n            else:\n                delayed_dfs.append(delayed_df)",
   "        for pnum, part in zip(all_partition_inds, ddf.to_delayed(), strict=True):\n            if pnum in overlaps_inds:\n                delayed_dfs.append(\n                    cx_fn(part)\n                )\n            else:\n                delayed_dfs.append(part)", expect='silent')
+
+# ------------------------------------------------------------------------------------------------ C03 (builder, from seeded changes)
+V('C03-drop-right-valid-branch', ['C03'], RT, "                elif right_valid:\n                    bounds_tree[node, :] = right_bounds\n", "", rule='C03.d')
+V('C03-tree-init-zeros', ['C03'], RT, "        bounds_tree = np.full((tree_length, 2 * n), np.nan)", "        bounds_tree = np.zeros((tree_length, 2 * n))", rule='C03.c')
+
+# ------------------------------------------------------------------------------------------------ C04
+V('C04-default-wrong-side', 'C04', BA, "            xs.stop if xs.stop is not None else xmax,", "            xs.stop if xs.stop is not None else xmin,", rule='C04.a')
+V('C04-default-wrong-axis', 'C04', BA, "            ys.start if ys.start is not None else ymin,", "            ys.start if ys.start is not None else xmin,", rule='C04.a')
+V('C04-no-swap', 'C04', BA, "        if y1 < y0:\n            y0, y1 = y1, y0\n        return x0, x1, y0, y1", "        return x0, x1, y0, y1", rule='C04.a')
+V('C04-return-layout', 'C04', BA, "        return x0, x1, y0, y1\n", "        return x0, y0, x1, y1\n", rule='C04.a')
+V('C04-rtree-box-layout', 'C04', BA, "self._sindex.covers_overlaps((x0, y0, x1, y1))", "self._sindex.covers_overlaps((x0, x1, y0, y1))", rule='C04.a')
+V('C04-exact-test-box-layout', 'C04', BA, "        overlaps_inds_mask = self._obj.intersects_bounds(\n            (x0, y0, x1, y1), overlaps_inds\n        )", "        overlaps_inds_mask = self._obj.intersects_bounds(\n            (x0, x1, y0, y1), overlaps_inds\n        )", rule='C04.a')
+V('C04-swap-before-defaults', 'C04', BA, "        x0, y0, x1, y1 = (\n            xs.start if xs.start is not None else xmin,\n            ys.start if ys.start is not None else ymin,\n            xs.stop if xs.stop is not None else xmax,\n            ys.stop if ys.stop is not None else ymax,\n        )\n        # Handle inverted bounds\n        if x1 < x0:\n            x0, x1 = x1, x0\n        if y1 < y0:\n            y0, y1 = y1, y0\n",
+  "        x0, y0, x1, y1 = xs.start, ys.start, xs.stop, ys.stop\n        # Handle inverted bounds\n        if x0 is not None and x1 is not None and x1 < x0:\n            x0, x1 = x1, x0\n        if y0 is not None and y1 is not None and y1 < y0:\n            y0, y1 = y1, y0\n        x0 = x0 if x0 is not None else xmin\n        y0 = y0 if y0 is not None else ymin\n        x1 = x1 if x1 is not None else xmax\n        y1 = y1 if y1 is not None else ymax\n", rule='C04.a')
+V('C04-no-sort', 'C04', BA, "            selected_inds = np.sort(\n                np.concatenate([covers_inds, overlaps_inds[overlaps_inds_mask]])\n            )", "            selected_inds = np.concatenate([covers_inds, overlaps_inds[overlaps_inds_mask]])", rule='C04.b')
+V('C04-mask-on-covers', 'C04', BA, "np.concatenate([covers_inds, overlaps_inds[overlaps_inds_mask]])", "np.concatenate([overlaps_inds, covers_inds[overlaps_inds_mask]])", rule='C04.b')
+V('C04-loc-instead-of-iloc', 'C04', BA, "                    return self._parent.iloc[selected_inds]", "                    return self._parent.loc[selected_inds]", rule='C04.b')
+V('C04-exact-test-all-rows', 'C04', BA, "            (x0, y0, x1, y1), overlaps_inds\n        )", "            (x0, y0, x1, y1), covers_inds\n        )", rule='C04.b')
+V('C04-take-copies-sindex', ['C04', 'C16'], BA, "        return self.__class__(self.data.take(indices), dtype=self.dtype)", "        result = self.__class__(self.data.take(indices), dtype=self.dtype)\n        result._sindex = self._sindex\n        return result", rule=None, rules={'C04': 'C04.d', 'C16': 'C16.c'})
+V('C04-geoseries-cx-no-parent', 'C04', 'spatialpandas/geoseries.py', "        return _CoordinateIndexer(self.array, parent=self)", "        return _CoordinateIndexer(self.array)", rule='C04.c')
+V('C04-silent-swap-mirrored', 'C04', BA, "        if x1 < x0:\n            x0, x1 = x1, x0\n        if y1 < y0:", "        if x0 > x1:\n            x1, x0 = x0, x1\n        if y1 < y0:", expect='silent')
